@@ -18,6 +18,47 @@ def attrs_for(rng, n=2):
     return {k: rng.choice(ATTR_VALUES) for k in keys}
 
 
+# attribute values netCDF can hold beyond str / int / float / list: a flag (stored as an integer: equal under Python's
+# ==), a 1-d numeric ndarray, missing_value (also handed to createVariable as fill_value); values it cannot hold
+# (None, dict: dropped with a warning) are encoded so that the case stays JSON
+RICH_VALUES = [True, False, {"__nd__": [1.5, 2.5, 4.0], "k": "f"}, {"__nd__": [3, 1, 2], "k": "i"}]
+UNREPRESENTABLE = [None, {"__dict__": {"a": 1, "b": [1, "x"]}}]
+
+
+def dec_attr(v):
+    """case encoding of a metadata value -> python value"""
+    if isinstance(v, dict) and "__nd__" in v:
+        return np.array(v["__nd__"], dtype=np.float64 if v.get("k") == "f" else np.int64)
+    if isinstance(v, dict) and "__dict__" in v:
+        return copy.deepcopy(v["__dict__"])
+    return copy.deepcopy(v)
+
+
+def nc_representable(v):
+    return not (v is None or isinstance(v, dict))
+
+
+def nc_attrs(d):
+    """the part of (canonical) metadata that a netCDF attribute can hold"""
+    return {k: v for k, v in dict(d or {}).items() if nc_representable(v)}
+
+
+def rich_attrs(rng, base, vkind=None):
+    """add the less common kinds of metadata to a generated dict (in place, returns it)"""
+    if rng.random() < 0.25:
+        base[rng.choice(["flag", "is_masked"])] = rng.choice(RICH_VALUES[:2])
+    if rng.random() < 0.25:
+        base[rng.choice(["bounds", "weights"])] = copy.deepcopy(rng.choice(RICH_VALUES[2:]))
+    if rng.random() < 0.15:
+        # set BEFORE the others: it may be dropped, the others may not
+        first = {rng.choice(["nothing", "lookup"]): copy.deepcopy(rng.choice(UNREPRESENTABLE))}
+        first.update(base)
+        base.clear(); base.update(first)
+    if vkind in ("f", "i", "i32") and rng.random() < 0.2:
+        base["missing_value"] = -999.0 if vkind == "f" else -999
+    return base
+
+
 def canon_attr(v):
     if isinstance(v, np.ndarray):
         return [canon_attr(x) for x in v.tolist()]
@@ -45,33 +86,48 @@ def obs(a):
     return o
 
 
-def gen_ds(rng, netcdf3=False):
+def gen_ds(rng, netcdf3=False, rich=False, lkinds=None, vkinds=None):
+    """`rich`: also bool / ndarray / unrepresentable / missing_value metadata; `lkinds` / `vkinds` override the
+    label and value kinds to draw from"""
     ndims = rng.randint(1, 3)
     dims = rng.sample(gen.DIMS, ndims)
     axes = {}
     for d in dims:
-        kind = rng.choice(["i", "f"]) if netcdf3 else rng.choice(["i", "f", "O"])
+        kind = rng.choice(lkinds) if lkinds else (rng.choice(["i", "f"]) if netcdf3 else rng.choice(["i", "f", "O"]))
         ax = gen.clean(gen.rand_axis(rng, d, kind=kind, n=rng.randint(1, 3)))
         ax["attrs_py"] = attrs_for(rng, 1)
+        if rich:
+            rich_attrs(rng, ax["attrs_py"])
         axes[d] = ax
     nv = rng.randint(0, 4)
     vars_ = {}
     for k in range(nv):
         sub = [d for d in dims if rng.random() < 0.6]
         rng.shuffle(sub)
-        vk = rng.choice(["f", "f", "i", "i32"] if netcdf3 else ["f", "f", "i", "i32", "O"])
+        vk = rng.choice(vkinds) if vkinds else rng.choice(["f", "f", "i", "i32"] if netcdf3 else ["f", "f", "i", "i32", "O"])
         shape = [len(axes[d]["labels"]) for d in sub]
         vars_["v%d" % k] = {"dims": sub, "vkind": vk, "attrs_py": attrs_for(rng), "nan_at": nan_pattern(rng, shape, rng.choice(["none", "some"])) if vk == "f" and sub else []}
+        if rich:
+            rich_attrs(rng, vars_["v%d" % k]["attrs_py"], vk)
     used = [d for d in dims if any(d in v["dims"] for v in vars_.values())]
-    return {"axes": {d: axes[d] for d in used}, "dims": used, "vars": vars_, "attrs": attrs_for(rng)}
+    out = {"axes": {d: axes[d] for d in used}, "dims": used, "vars": vars_, "attrs": attrs_for(rng)}
+    if rich:
+        rich_attrs(rng, out["attrs"])
+    return out
+
+
+def build_axis(ad):
+    ax = core.build_axis(dict(ad, attrs_py={}))
+    for k, v in ad.get("attrs_py", {}).items():
+        ax.attrs[k] = dec_attr(v)
+    return ax
 
 
 def build_var(dd, key, base=0):
     v = dd["vars"][key]
     axes = []
     for d in v["dims"]:
-        ax = core.build_axis(dd["axes"][d])
-        axes.append(ax)
+        axes.append(build_axis(dd["axes"][d]))
     shape = tuple(len(dd["axes"][d]["labels"]) for d in v["dims"])
     kind = "i" if v["vkind"] == "i32" else v["vkind"]
     vals = core.make_values(shape, kind, base, v.get("nan_at", ()))
@@ -79,7 +135,7 @@ def build_var(dd, key, base=0):
         vals = vals.astype(np.int32)
     a = DimArray(vals, axes=axes)
     for k2, x in v.get("attrs_py", {}).items():
-        a.attrs[k2] = copy.deepcopy(x)
+        a.attrs[k2] = dec_attr(x)
     return a
 
 
@@ -88,7 +144,7 @@ def build_ds(dd, base=0):
     for i, key in enumerate(dd["vars"]):
         ds[key] = build_var(dd, key, base + i)
     for k, v in dd["attrs"].items():
-        ds.attrs[k] = copy.deepcopy(v)
+        ds.attrs[k] = dec_attr(v)
     return ds
 
 
@@ -106,9 +162,14 @@ class C19(Prop):
     rule = ("JSON: arrays of rank 0-3 (float with NaN, int, str values), int/float/str labels in any order, str/int/float/"
             "list/nested-dict metadata; from_json(to_json(a)) and the structure of the JSON text. netCDF (vendored stand-in "
             "for netCDF4): Datasets of 0-4 variables (0-d to 3-d; float with NaN, int64, int32, str) over shared and unshared "
-            "dimensions, metadata on the three levels; write sequences mixing Dataset.write_nc, DimArray.write_nc(mode='a' / "
-            "'a+') and open_nc(f, 'a')[name] = array; NETCDF4 and NETCDF3_CLASSIC. Non-trivial = at least one variable of "
-            "rank >= 1; distinct = canonical JSON")
+            "dimensions, metadata on the three levels (str, int, float, list, flag, 1-d ndarray, missing_value; None / dict "
+            "entries may be dropped); the file is created by Dataset.write_nc, by DimArray.write_nc variable by variable, "
+            "through an open netCDF4 handle or open_nc(f, 'w'), with mode 'w' / 'w-' / 'a+', clobber=, over an existing file; "
+            "then variables are appended by DimArray.write_nc(mode='a' / 'a+'), Dataset.write_nc(mode='a' / 'a+'), a handle, "
+            "open_nc(f, 'a')[name] = array: new names, a new dimension, labels differing from the file's, an existing name; "
+            "writes that must be refused (existing file, 'w-' / clobber=False); NETCDF4, NETCDF4_CLASSIC, NETCDF3_CLASSIC, "
+            "NETCDF3_64BIT. JSON also with to_json(**kwargs), to_jsondict / from_jsondict, axis metadata present. "
+            "Non-trivial = at least one variable of rank >= 1; distinct = canonical JSON")
     assumptions = ["PARTIAL (netCDF half): the vendored stand-in's fidelity to netCDF4-python / libnetcdf (type mapping, "
                    "masked arrays, vlen strings, unlimited dimensions, index rules) is assumed and cannot be checked here"]
 
@@ -126,111 +187,320 @@ class C19(Prop):
                         "DimArrayOnDisk.write": ncio.DimArrayOnDisk.write, "AttrsOnDisk.__setitem__": ncio.AttrsOnDisk.__setitem__})
         return out
 
+    FORMATS = ["NETCDF4"] * 4 + ["NETCDF3_CLASSIC"] * 2 + ["NETCDF3_64BIT", "NETCDF4_CLASSIC"]
+    APPEND_HOWS = ["dimarray_a", "dimarray_a+", "open_setitem", "dataset_a", "dataset_a+", "handle_a"]
+    # TODO(defect): DimArray.write_nc(f) without name= does not take the name from the array's `name` attribute
+    # (DatasetOnDisk.write looks the attribute up on the on-disk dataset, not on the array): ValueError.  The stratum
+    # is generated only when this is switched on.
+    NAME_FROM_ATTRS = False
+    # TODO(defect): Dataset.write_nc(f, mode='w-') on an existing file overwrites it (its clobber parameter defaults to
+    # True, so _maybe_open_file never turns 'w-' into clobber=False; DimArray.write_nc, default None, refuses).  The
+    # form is generated only when this is switched on.
+    DATASET_WMINUS = False
+
+    def gen_json(self, rng):
+        rank = rng.choice([0, 1, 2, 2, 3])
+        arr = gen.rand_array(rng, rank=rank, maxn=3, minn=0 if rng.random() < 0.1 else 1)
+        arr["vkind"] = rng.choice(["f", "f", "i", "O"])
+        shape = [len(a["labels"]) for a in arr["axes"]]
+        if 0 in shape[:-1]:
+            return None     # nested lists cannot express e.g. shape (0, 3): not JSON-representable (Serial.Representable)
+        arr["nan_at"] = nan_pattern(rng, shape, rng.choice(["none", "some"])) if arr["vkind"] == "f" else []
+        meta = attrs_for(rng, 3)
+        if rng.random() < 0.3:
+            meta["nested"] = {"a": 1, "b": [1, "x"]}
+        if rng.random() < 0.35:
+            # JSON-representable values that are falsy in Python
+            for k in rng.sample(["zero", "fzero", "empty", "nolist", "flag"], rng.randint(1, 3)):
+                meta[k] = {"zero": 0, "fzero": 0.0, "empty": "", "nolist": [], "flag": False}[k]
+        if rng.random() < 0.25:
+            # keys that are also names of attributes or methods of the class: they are metadata all the same
+            for k in rng.sample(["shape", "T", "size", "mean", "labels"], rng.randint(1, 2)):
+                meta[k] = rng.choice(["round", 7, [1, 2]])
+        c = {"op": "json", "array": gen.clean(arr), "meta": meta}
+        if rng.random() < 0.3:
+            # an entry that json cannot represent, set BEFORE the others: it may be dropped, the others may not
+            c["unrepresentable_first"] = rng.choice(["ndarray", "set", "float32"])
+        # entry points: the text, the text with json.dumps options, the dictionary form directly / through a text
+        c["via"] = rng.choice(["json", "json", "json", "json_kwargs", "jsondict", "jsondict_text"])
+        if c["via"] == "json_kwargs":
+            c["kwargs"] = rng.choice([{"indent": 2}, {"sort_keys": True}, {"separators": [", ", ": "]},
+                                      {"indent": 1, "sort_keys": True}, {"separators": [",", ":"], "ensure_ascii": False}])
+        if rng.random() < 0.3:
+            for ax in c["array"]["axes"]:
+                ax["attrs_py"] = attrs_for(rng, 2)
+        return c
+
+    def gen_first(self, rng, dd):
+        """how the file comes into being"""
+        r = rng.random()
+        if r < 0.5 or not dd["vars"]:
+            how = "dataset"
+        elif r < 0.72:
+            how = "dimarray_w"          # variable by variable: DimArray.write_nc(mode='w') then mode='a'
+        elif r < 0.82:
+            how = "handle_dataset"      # Dataset.write_nc(<open netCDF4.Dataset>)
+        elif r < 0.92:
+            how = "handle_dimarray"     # DimArray.write_nc(<open netCDF4.Dataset>, name), closed by the caller
+        else:
+            how = "open_w"              # open_nc(f, 'w')[name] = array
+        st = {"how": how}
+        if how in ("dataset", "dimarray_w"):
+            st["mode"] = rng.choice(["w", "w", "w", "w-", "a+"])          # 'w-' / 'a+' on a file that does not exist
+            if st["mode"] == "w":
+                st["clobber"] = rng.choice([None, None, True])
+                st["preexisting"] = rng.random() < 0.35                   # overwrite of an existing file
+            if how == "dimarray_w" and self.NAME_FROM_ATTRS and rng.random() < 0.3:
+                st["name_from_attrs"] = True
+        elif how == "open_w":
+            st["preexisting"] = rng.random() < 0.3
+        return st
+
+    def gen_nc(self, rng, i, tier):
+        fmt = rng.choice(self.FORMATS)
+        if fmt == "NETCDF4_CLASSIC":
+            # classic data model in an HDF5 file: no variable-length strings, no 64-bit integers (dimarray narrows
+            # int64 for the two NETCDF3 formats only) => float labels, float / int32 values
+            dd = gen_ds(rng, netcdf3=True, rich=True, lkinds=["f"], vkinds=["f", "f", "i32"])
+            akinds, lkinds = ["f", "i32"], ["f"]
+        elif fmt.startswith("NETCDF3"):
+            dd = gen_ds(rng, netcdf3=True, rich=True)
+            akinds, lkinds = ["f", "i"], ["i", "f"]
+        else:
+            dd = gen_ds(rng, rich=True)
+            akinds, lkinds = ["f", "i", "O"], ["i", "f", "O"]
+        steps = [self.gen_first(rng, dd)]
+        present = {k: v for k, v in dd["vars"].items()}
+        # append more variables by the other entry points
+        for j in range(rng.randint(0, 2 if tier == "quick" else 3)):
+            if rng.random() < 0.12:
+                # a write that must be refused: the file exists
+                st = {"how": rng.choice(["refuse_w-", "refuse_noclobber"]), "by": rng.choice(["dataset", "dimarray"])}
+                if st["how"] == "refuse_w-" and st["by"] == "dataset" and not self.DATASET_WMINUS:
+                    st["by"] = "dimarray"
+                steps.append(st)
+                continue
+            how = rng.choice(self.APPEND_HOWS)
+            sub = [d for d in dd["dims"] if rng.random() < 0.6]
+            vk = rng.choice(akinds)
+            st = {"how": how, "what": "new", "key": "w%d" % j, "dims": sub, "vkind": vk, "attrs_py": rich_attrs(rng, attrs_for(rng), vk)}
+            r = rng.random()
+            if r < 0.2:
+                # the variable brings a dimension that the file does not have yet
+                t = "t%d" % j
+                ax = gen.clean(gen.rand_axis(rng, t, kind=rng.choice(lkinds), n=rng.randint(1, 3)))
+                ax["attrs_py"] = rich_attrs(rng, attrs_for(rng, 1))
+                st["what"] = "newdim"
+                st["new_axes"] = {t: ax}
+                st["dims"] = sub + [t]
+                rng.shuffle(st["dims"])
+            elif r < 0.35 and sub:
+                # labels that differ from the ones in the file along one dimension (same length)
+                d = rng.choice(sub)
+                ax = dd["axes"][d]
+                labs = list(ax["labels"])
+                if len(labs) > 1 and rng.random() < 0.5:
+                    labs = labs[1:] + labs[:1]
+                else:
+                    labs[rng.randrange(len(labs))] = gen.absent_label(rng, dict(ax, labels=labs))
+                st["what"] = "difflabels"
+                st["labels_override"] = {d: labs}
+            elif r < 0.55 and present:
+                # a name that the file already has: same dimensions and kind, new values
+                key = rng.choice(sorted(present))
+                p = present[key]
+                st.update({"what": "existing", "key": key, "dims": list(p["dims"]), "vkind": p["vkind"],
+                           "attrs_py": copy.deepcopy(p["attrs_py"]), "base": 70 + j})
+                if p.get("new_axes"):
+                    st["use_axes"] = p["new_axes"]
+            present[st["key"]] = {"dims": st["dims"], "vkind": st["vkind"], "attrs_py": st["attrs_py"],
+                                  "new_axes": st.get("new_axes") or st.get("use_axes")}
+            steps.append(st)
+        return {"op": "nc", "ds": dd, "format": fmt, "steps": steps, "seed": i}
+
     def gen(self, rng, tier):
         n = 500 if tier == "quick" else 10000
         for i in range(n):
             if rng.random() < 0.4:
-                rank = rng.choice([0, 1, 2, 2, 3])
-                arr = gen.rand_array(rng, rank=rank, maxn=3, minn=0 if rng.random() < 0.1 else 1)
-                arr["vkind"] = rng.choice(["f", "f", "i", "O"])
-                shape = [len(a["labels"]) for a in arr["axes"]]
-                if 0 in shape[:-1]:
-                    continue     # nested lists cannot express e.g. shape (0, 3): not JSON-representable (Serial.Representable)
-                arr["nan_at"] = nan_pattern(rng, shape, rng.choice(["none", "some"])) if arr["vkind"] == "f" else []
-                meta = attrs_for(rng, 3)
-                if rng.random() < 0.3:
-                    meta["nested"] = {"a": 1, "b": [1, "x"]}
-                if rng.random() < 0.35:
-                    # JSON-representable values that are falsy in Python
-                    for k in rng.sample(["zero", "fzero", "empty", "nolist", "flag"], rng.randint(1, 3)):
-                        meta[k] = {"zero": 0, "fzero": 0.0, "empty": "", "nolist": [], "flag": False}[k]
-                if rng.random() < 0.25:
-                    # keys that are also names of attributes or methods of the class: they are metadata all the same
-                    for k in rng.sample(["shape", "T", "size", "mean", "labels"], rng.randint(1, 2)):
-                        meta[k] = rng.choice(["round", 7, [1, 2]])
-                c = {"op": "json", "array": gen.clean(arr), "meta": meta}
-                if rng.random() < 0.3:
-                    # an entry that json cannot represent, set BEFORE the others: it may be dropped, the others may not
-                    c["unrepresentable_first"] = rng.choice(["ndarray", "set", "float32"])
-                yield c
+                c = self.gen_json(rng)
+                if c is not None:
+                    yield c
             else:
-                fmt = rng.choice(["NETCDF4", "NETCDF4", "NETCDF3_CLASSIC"])
-                dd = gen_ds(rng, netcdf3=fmt.startswith("NETCDF3"))
-                steps = [{"how": "dataset"}]
-                # append more variables by the other entry points
-                for j in range(rng.randint(0, 2)):
-                    how = rng.choice(["dimarray_a", "dimarray_a+", "open_setitem", "dataset_a", "dataset_a+"])
-                    sub = [d for d in dd["dims"] if rng.random() < 0.6]
-                    vk = rng.choice(["f", "i"])
-                    steps.append({"how": how, "key": "w%d" % j, "dims": sub, "vkind": vk, "attrs_py": attrs_for(rng)})
-                yield {"op": "nc", "ds": dd, "format": fmt, "steps": steps, "seed": i}
+                yield self.gen_nc(rng, i, tier)
 
     # ------------------------------------------------------------ implementation side
+    def impl_json(self, c):
+        a = core.build_array(c["array"], 0)
+        if c.get("unrepresentable_first"):
+            a.attrs["weights"] = {"ndarray": np.arange(3.), "set": {1, 2}, "float32": np.float32(1.5)}[c["unrepresentable_first"]]
+        for k, v in c["meta"].items():
+            a.attrs[k] = copy.deepcopy(v)
+        before = obs(a)
+        via = c.get("via", "json")
+
+        def text_of(s):
+            t = json.loads(s)
+            return {"dims": t.get("dims"), "shape": t.get("shape"), "ndim": t.get("ndim"),
+                    "labels": [[core.enc_label(x) for x in l] for l in t.get("labels", [])], "keys": sorted(t)}
+
+        def run():
+            if via == "jsondict":
+                d = a.to_jsondict()
+                b = DimArray.from_jsondict(d)
+                return {"text": text_of(json.dumps(d)), "back": obs(b)}
+            if via == "jsondict_text":
+                d = json.loads(json.dumps(a.to_jsondict()))
+                b = DimArray.from_jsondict(d)
+                return {"text": text_of(json.dumps(d)), "back": obs(b)}
+            kw = dict(c.get("kwargs") or {})
+            if "separators" in kw:
+                kw["separators"] = tuple(kw["separators"])
+            s = a.to_json(**kw)
+            if not isinstance(s, str):
+                raise TypeError("to_json did not return a str")
+            b = DimArray.from_json(s)
+            order = [k for k, _ in json.loads(s, object_pairs_hook=lambda kv: kv)]
+            return {"text": text_of(s), "back": obs(b), "multiline": "\n" in s, "key_order": order,
+                    "spaced": '": ' in s}
+        out = core.guarded(run)
+        out["input"] = before
+        if obs(a) != before:
+            out["operand_modified"] = True
+        return out
+
     def impl(self, c):
         with warnings.catch_warnings():
             warnings.simplefilter("ignore")
             if c["op"] == "json":
-                a = core.build_array(c["array"], 0)
-                if c.get("unrepresentable_first"):
-                    a.attrs["weights"] = {"ndarray": np.arange(3.), "set": {1, 2}, "float32": np.float32(1.5)}[c["unrepresentable_first"]]
-                for k, v in c["meta"].items():
-                    a.attrs[k] = copy.deepcopy(v)
-                before = obs(a)
-
-                def run():
-                    s = a.to_json()
-                    b = DimArray.from_json(s)
-                    return {"text": json.loads(s.replace("NaN", '"NaN"')), "back": obs(b)}
-                out = core.guarded(run)
-                out["input"] = before
-                if obs(a) != before:
-                    out["operand_modified"] = True
-                return out
+                return self.impl_json(c)
+            import netCDF4
             os.makedirs(NCDIR, exist_ok=True)
             path = os.path.join(NCDIR, "c19_%d_%d.nc" % (os.getpid(), c["seed"]))
             if os.path.exists(path):
                 os.remove(path)
             dd = c["ds"]
+            fmt = c["format"]
             ds = build_ds(dd)
             before = obs_dataset(ds)
             expected = dict(before["vars"])
-            extra_before = {}
-            ds_attrs_added = {}
+            expected_axes = dict(before["axes"])
+            first = c["steps"][0]
+            by_variable = first["how"] in ("dimarray_w", "handle_dimarray")       # these cannot carry dataset-level metadata
+            ds_attrs = {} if by_variable else dict(before["attrs"])
+            notes = {}
+
+            def write_first():
+                if first.get("preexisting"):
+                    old = Dataset({"old": DimArray(np.arange(2.), axes=[Axis(np.array([7, 8]), "x")]),
+                                   "old2": DimArray(np.arange(3.), axes=[Axis(np.array([1.5, 2.5, 3.5]), "q")])})
+                    old.attrs["old_attr"] = "was here"
+                    old.write_nc(path)
+                kw = {}
+                if first.get("mode"):
+                    kw["mode"] = first["mode"]
+                if first.get("clobber") is not None:
+                    kw["clobber"] = first["clobber"]
+                how = first["how"]
+                if how == "dataset":
+                    ds.write_nc(path, format=fmt, **kw)
+                elif how == "dimarray_w":
+                    for n, k in enumerate(ds.keys()):
+                        if n == 0 and first.get("name_from_attrs"):
+                            a = ds[k].copy()
+                            a.name = k
+                            expected[k] = obs(a)
+                            a.write_nc(path, format=fmt, **kw)
+                        elif n == 0:
+                            ds[k].write_nc(path, k, format=fmt, **kw)
+                        else:
+                            ds[k].write_nc(path, k, mode="a")
+                elif how == "handle_dataset":
+                    h = netCDF4.Dataset(path, "w", format=fmt)
+                    ds.write_nc(h)
+                    if h.isopen():
+                        h.close()
+                elif how == "handle_dimarray":
+                    h = netCDF4.Dataset(path, "w", format=fmt)
+                    for k in ds.keys():
+                        ds[k].write_nc(h, k)
+                    notes["handle_left_open"] = bool(h.isopen())
+                    h.close()
+                elif how == "open_w":
+                    f = da.open_nc(path, "w", format=fmt)
+                    for k in ds.keys():
+                        f[k] = ds[k]
+                    f.attrs.update(ds.attrs)
+                    f.close()
+                else:
+                    raise ValueError(how)
 
             def run():
-                ds.write_nc(path, format=c["format"])
+                write_first()
                 after_first = obs_dataset(da.read_nc(path))
+                refusals = []
                 for st in c["steps"][1:]:
-                    ddv = {"axes": dd["axes"], "vars": {st["key"]: {"dims": st["dims"], "vkind": st["vkind"], "attrs_py": st["attrs_py"]}}}
-                    a = build_var(ddv, st["key"], 50)
-                    extra_before[st["key"]] = obs(a)
-                    if st["how"] == "dimarray_a":
+                    if st["how"].startswith("refuse"):
+                        other = Dataset({"zz": DimArray(np.arange(2.), axes=[Axis(np.array([1, 2]), "x")])})
+                        kw = {"mode": "w-"} if st["how"] == "refuse_w-" else {"mode": "w", "clobber": False}
+                        try:
+                            if st["by"] == "dataset":
+                                other.write_nc(path, **kw)
+                            else:
+                                other["zz"].write_nc(path, "zz", **kw)
+                            refusals.append(False)
+                        except Exception:
+                            refusals.append(True)
+                        continue
+                    axes = dict(dd["axes"])
+                    axes.update(st.get("new_axes") or {})
+                    axes.update(st.get("use_axes") or {})
+                    for d, labs in (st.get("labels_override") or {}).items():
+                        axes[d] = dict(axes[d], labels=labs)
+                    ddv = {"axes": axes, "vars": {st["key"]: {"dims": st["dims"], "vkind": st["vkind"], "attrs_py": st["attrs_py"]}}}
+                    a = build_var(ddv, st["key"], st.get("base", 50))
+                    a_before = obs(a)
+                    how = st["how"]
+                    if how == "dimarray_a":
                         a.write_nc(path, st["key"], mode="a")
-                    elif st["how"] == "dimarray_a+":
+                    elif how == "dimarray_a+":
                         a.write_nc(path, st["key"], mode="a+")
-                    elif st["how"] in ("dataset_a", "dataset_a+"):
+                    elif how in ("dataset_a", "dataset_a+"):
                         d2 = Dataset({st["key"]: a})
                         d2.attrs["appended_" + st["key"]] = "yes"          # dataset-level metadata of the appended dataset
-                        ds_attrs_added["appended_" + st["key"]] = "yes"
-                        d2.write_nc(path, mode=st["how"][8:])
+                        ds_attrs["appended_" + st["key"]] = "yes"
+                        d2.write_nc(path, mode=how[8:])
+                    elif how == "handle_a":
+                        h = netCDF4.Dataset(path, "a")
+                        a.write_nc(h, st["key"])
+                        h.close()
                     else:
                         f = da.open_nc(path, mode="a")
                         f[st["key"]] = a
                         f.close()
-                    expected[st["key"]] = obs(a)
-                    if obs(a) != extra_before[st["key"]]:
+                    exp = obs(a)
+                    for d in (st.get("new_axes") or {}):
+                        ax = a.axes[d]
+                        expected_axes[d] = {"labels": [core.enc_label(v) for v in ax.values.tolist()], "attrs": canon_attrs(ax.attrs)}
+                    for d in (st.get("labels_override") or {}):
+                        # the file keeps the labels it has
+                        exp["axes"][a.dims.index(d)]["labels"] = expected_axes[d]["labels"]
+                    expected[st["key"]] = exp
+                    if obs(a) != a_before:
                         raise AssertionError("write modified the in-memory array")
-                return {"first": after_first, "final": obs_dataset(da.read_nc(path))}
+                return {"first": after_first, "final": obs_dataset(da.read_nc(path)), "refusals": refusals, "notes": notes}
             out = core.guarded(run)
             out["input"] = before
             out["expected_vars"] = expected
-            out["expected_ds_attrs"] = dict(before["attrs"], **ds_attrs_added)
+            out["expected_axes"] = expected_axes
+            out["expected_ds_attrs"] = ds_attrs
+            out["first_ds_attrs"] = {} if by_variable else dict(before["attrs"])
             if obs_dataset(ds) != before:
                 out["operand_modified"] = True
-            try:
-                os.remove(path)
-            except OSError:
-                pass
+            for p in (path, path + ".tmp"):
+                try:
+                    os.remove(p)
+                except OSError:
+                    pass
             return out
 
     def request(self, c):
@@ -246,9 +516,30 @@ class C19(Prop):
             bad.append(tag + ".dtype_kind")
         if [(x["name"], [lab_key(l) for l in x["labels"]]) for x in got["axes"]] != [(x["name"], [lab_key(l) for l in x["labels"]]) for x in want["axes"]]:
             bad.append(tag + ".labels")
-        if got.get("attrs_py") != want.get("attrs_py"):
+        # (metadata that a netCDF attribute cannot hold - None, dict - is outside the statement: neither required nor forbidden)
+        if nc_attrs(got.get("attrs_py")) != nc_attrs(want.get("attrs_py")):
             bad.append(tag + ".attrs")
+        if [nc_attrs(x) for x in got.get("axes_attrs", [])] != [nc_attrs(x) for x in want.get("axes_attrs", [])]:
+            bad.append(tag + ".axes_attrs")
         return bad
+
+    def cmp_axes(self, got_axes, want_axes, tag):
+        bad = []
+        for d, ax in want_axes.items():
+            if d not in got_axes:
+                bad.append(tag + "axis_missing")
+            else:
+                if [lab_key(l) for l in got_axes[d]["labels"]] != [lab_key(l) for l in ax["labels"]]:
+                    bad.append(tag + "axis_labels")
+                if nc_attrs(got_axes[d]["attrs"]) != nc_attrs(ax["attrs"]):
+                    bad.append(tag + "axis_attrs")
+        if sorted(got_axes) != sorted(want_axes):
+            bad.append(tag + "dims_set")
+        return bad
+
+    @staticmethod
+    def skind(k):
+        return "s" if k in ("O", "U", "S") else k
 
     def judge(self, c, io, ans):
         prop_bad = []
@@ -263,6 +554,12 @@ class C19(Prop):
                     prop_bad.append("json." + k)
             if [(x["name"], [lab_key(l) for l in x["labels"]]) for x in back["axes"]] != [(x["name"], [lab_key(l) for l in x["labels"]]) for x in inp["axes"]]:
                 prop_bad.append("json.labels")
+            # "equal data": numbers stay the numbers they were (int / float), text stays text - wherever there is a value to tell
+            if inp["values"] and self.skind(back.get("dtype")) != self.skind(inp.get("dtype")):
+                prop_bad.append("json.values_kind")
+            for x, y in zip(back["axes"], inp["axes"]):
+                if y["labels"] and self.skind(x["kind"]) != self.skind(y["kind"]):
+                    prop_bad.append("json.labels_kind")
             want_attrs = dict(inp.get("attrs_py") or {})
             got_attrs = dict(back.get("attrs_py") or {})
             if c.get("unrepresentable_first"):
@@ -272,27 +569,31 @@ class C19(Prop):
             t = o["text"]
             if t.get("dims") != inp["dims"] or t.get("shape") != inp["shape"] or t.get("ndim") != len(inp["dims"]):
                 prop_bad.append("json.text")
+            if [[lab_key(l) for l in ls] for ls in t.get("labels", [])] != [[lab_key(l) for l in x["labels"]] for x in inp["axes"]]:
+                prop_bad.append("json.text_labels")
+            # to_json(**kwargs): "passed to json.dumps" - the options show in the text
+            kw = c.get("kwargs") or {}
+            if "key_order" in o:
+                if kw.get("sort_keys") and o["key_order"] != sorted(o["key_order"]):
+                    prop_bad.append("json.kwargs.sort_keys")
+                if "indent" in kw and not o["multiline"]:
+                    prop_bad.append("json.kwargs.indent")
+                if "separators" in kw and o["spaced"] != (kw["separators"][1] == ": "):
+                    prop_bad.append("json.kwargs.separators")
         else:
             o = io["ok"]
             inp = io["input"]
             n3 = c["format"].startswith("NETCDF3")
-            # the file written by Dataset.write_nc
+            # the file as first written
             first = o["first"]
             if sorted(first["keys"]) != sorted(inp["keys"]):
                 prop_bad.append("nc.keys")
             else:
                 for k in inp["keys"]:
-                    prop_bad += self.cmp_var(first["vars"][k], inp["vars"][k], "nc." + k, n3)
-            if first["attrs"] != inp["attrs"]:
+                    prop_bad += self.cmp_var(first["vars"][k], io["expected_vars"][k] if c["steps"][0].get("name_from_attrs") else inp["vars"][k], "nc." + k, n3)
+            if nc_attrs(first["attrs"]) != nc_attrs(io.get("first_ds_attrs", inp["attrs"])):
                 prop_bad.append("nc.dataset_attrs")
-            for d, ax in inp["axes"].items():
-                if d not in first["axes"]:
-                    prop_bad.append("nc.axis_missing")
-                else:
-                    if [lab_key(l) for l in first["axes"][d]["labels"]] != [lab_key(l) for l in ax["labels"]]:
-                        prop_bad.append("nc.axis_labels")
-                    if first["axes"][d]["attrs"] != ax["attrs"]:
-                        prop_bad.append("nc.axis_attrs")
+            prop_bad += self.cmp_axes(first["axes"], inp["axes"], "nc.")
             # appended variables; what was there is kept
             final = o["final"]
             for k, want in io["expected_vars"].items():
@@ -300,8 +601,14 @@ class C19(Prop):
                     prop_bad.append("nc.append_lost:" + k)
                 else:
                     prop_bad += self.cmp_var(final["vars"][k], want, "nc.final." + k, n3)
-            if final["attrs"] != io.get("expected_ds_attrs", inp["attrs"]):
+            if sorted(final["keys"]) != sorted(io["expected_vars"]):
+                prop_bad.append("nc.final.keys")
+            if nc_attrs(final["attrs"]) != nc_attrs(io.get("expected_ds_attrs", inp["attrs"])):
                 prop_bad.append("nc.final.dataset_attrs")
+            prop_bad += self.cmp_axes(final["axes"], io.get("expected_axes", inp["axes"]), "nc.final.")
+            # mode='w-' / clobber=False on a file that exists: refused (and, above, everything is still there)
+            if not all(o.get("refusals", [])):
+                prop_bad.append("nc.existing_file_not_refused")
         if io.get("operand_modified"):
             prop_bad.append("operand_modified")
         if not prop_bad:
@@ -320,12 +627,39 @@ class C19(Prop):
         f = {"outcome": "err:" + io["err"] if "err" in io else "ok", "op": c["op"]}
         if c["op"] == "nc":
             f["format"] = c["format"]; f["nvars"] = len(c["ds"]["vars"]); f["nsteps"] = len(c["steps"])
-            for st in c["steps"]:
+            st0 = c["steps"][0]
+            f["first"] = st0["how"] + (":" + st0["mode"] if st0.get("mode") else "") + (":clobber" if st0.get("clobber") else "")
+            f["first.preexisting_file"] = bool(st0.get("preexisting"))
+            for st in c["steps"][1:]:
                 f["how:" + st["how"]] = 1
+                if st.get("what"):
+                    f["append:" + st["what"]] = 1
             for v in c["ds"]["vars"].values():
                 f["vkind:" + v["vkind"]] = 1
+            metas = [c["ds"]["attrs"]] + [v["attrs_py"] for v in c["ds"]["vars"].values()] + [a.get("attrs_py", {}) for a in c["ds"]["axes"].values()]
+            metas += [st.get("attrs_py", {}) for st in c["steps"][1:]]
+            for m in metas:
+                for k, v in m.items():
+                    if isinstance(v, bool):
+                        f["attr:bool"] = 1
+                    elif isinstance(v, dict) and "__nd__" in v:
+                        f["attr:ndarray"] = 1
+                    elif v is None or isinstance(v, dict):
+                        f["attr:unrepresentable"] = 1
+                    elif k == "missing_value":
+                        f["attr:missing_value"] = 1
+                    elif isinstance(v, list):
+                        f["attr:list"] = 1
         else:
             f["rank"] = len(c["array"]["axes"]); f["vkind"] = c["array"]["vkind"]
+            f["via"] = c.get("via", "json")
+            if c.get("kwargs"):
+                f["to_json.kwargs"] = ",".join(sorted(c["kwargs"]))
+            has = any(ax.get("attrs_py") for ax in c["array"]["axes"])
+            f["axis_attrs"] = has
+            if has and "ok" in io:
+                # (the JSON form has no place for axis metadata: observed, not required by the statement)
+                f["axis_attrs_restored"] = io["ok"]["back"].get("axes_attrs") == io["input"].get("axes_attrs")
         return f
 
     def size(self, c):
